@@ -227,12 +227,71 @@ func genC01Race(r *Rng, idx int) *Scenario {
 		b.Ops = append([]Op(nil), b.Ops...)
 		actors = append(actors, b)
 	}
+	if len(actors) > 4 {
+		actors = actors[:4]
+	}
+	// mostly well-formed dialogues (mutations rarely matter for shared state); the prototype is chosen by the run
+	// index so that every request kind of the grammar gets its turn
+	svc := svcByKey(first)
+	ps := prototypes(svc, r)
+	opsOf := func(msgs [][]byte) []Op {
+		var ops []Op
+		for _, m := range msgs {
+			if len(m) > 0 {
+				ops = append(ops, SendOp(m, nil, ""))
+			}
+		}
+		if !svc.UDP {
+			ops = append(ops, Op{K: "close"})
+		}
+		return ops
+	}
+	if len(ps) > 0 {
+		for i := range actors {
+			if r.Chance(0.7) {
+				actors[i].Ops = opsOf(cloneMsgs(ps[r.Intn(len(ps))]))
+			}
+		}
+	}
+	if r.Chance(0.5) {
+		// twins: every connection carries the same dialogue (the same handler path on all of them at once is the
+		// most likely way to meet on shared state)
+		if len(ps) > 0 && r.Chance(0.8) {
+			actors[0].Ops = opsOf(cloneMsgs(ps[r.Intn(len(ps))]))
+		}
+		for i := 1; i < len(actors); i++ {
+			actors[i].Ops = append([]Op(nil), actors[0].Ops...)
+		}
+		sc.Params["twins"] = true
+	}
 	sc.Actors = actors
 	sc.Schedule = r.Schedule(300)
 	for i := range sc.Schedule {
 		if r.Chance(0.7) {
 			sc.Schedule[i] |= 1<<16 | r.Intn(4)<<17
 		}
+	}
+	if r.Chance(0.5) || sc.ParamBool("twins") && r.Chance(0.7) {
+		// simultaneous: every connection is opened first, then the first request of every connection is
+		// released in one and the same step (whole requests: no cuts), so that all handlers are unordered
+		n := len(actors)
+		for ai := range sc.Actors {
+			for oi := range sc.Actors[ai].Ops {
+				if sc.Actors[ai].Ops[oi].K == "send" {
+					sc.Actors[ai].Ops[oi].Cuts = nil
+				}
+			}
+		}
+		var head []int
+		for i := 0; i < n; i++ {
+			head = append(head, i) // connect actor i
+		}
+		head = append(head, 1<<16|(n-2)<<17) // batch of n: picks actors 0..n-1
+		for i := 1; i < n; i++ {
+			head = append(head, i)
+		}
+		sc.Schedule = append(head, sc.Schedule...)
+		sc.Params["simultaneous"] = true
 	}
 	sc.Params["batch"] = true
 	sc.Params["race"] = true
